@@ -71,3 +71,29 @@ Theorem C18_known_unguarded_exact : forall pm,
   In pm KnownUnguarded ->
   exists e, In e endpoint_guards /\ ep_path e = fst pm /\ ep_method e = snd pm /\ is_data_endpoint e = true /\ ep_guard e = NoGuard.
 Proof. exact known_unguarded_exact_lemma. Qed.
+
+(** the privilege WRITE path (UserManager::add_user / update_user): every field an update gives
+    REPLACES the stored one — an empty list included — and the session group built from the
+    stored record is exactly that; so a namespace dropped from the whitelist, or put on the
+    blacklist, is refused from the next login on *)
+Theorem C18_update_sets_exactly : forall u p,
+  let g := urec_group u in
+  urec_group (update_user_priv u (Some p)) =
+  mkPg true (obool (p_wl_all p) (wl_all g))
+       (Some (match p_wl p with Some l => l | None => olist (wl g) end))
+       (obool (p_bl_all p) (bl_all g))
+       (Some (match p_bl p with Some l => l | None => olist (bl g) end)).
+Proof. exact update_sets_exactly_lemma. Qed.
+
+Theorem C18_update_revokes : forall u p l k,
+  p_wl p = Some l -> p_wl_all p = Some false -> ~ In k l ->
+  check_permission (urec_group (update_user_priv u (Some p))) k = false.
+Proof. exact update_revokes_lemma. Qed.
+
+Theorem C18_update_blacklists : forall u p l k,
+  p_bl p = Some l -> In k l ->
+  check_permission (urec_group (update_user_priv u (Some p))) k = false.
+Proof. exact update_blacklists_lemma. Qed.
+
+Theorem C18_update_none_keeps : forall u, update_user_priv u None = u.
+Proof. exact update_none_keeps_lemma. Qed.
